@@ -39,4 +39,18 @@ func TestF32SweepStartsBelowRelayFloor(t *testing.T) {
 			require.GreaterOrEqual(t, f.FeeRate(), relayFloor, "starting fee rate below the relay floor")
 		}
 	})
+	// Site three (recorded as known finding): a starting rate supplied by the caller - the rate of our earlier, still unconfirmed sweep
+	// found in the mempool after a restart, or the rate inherited from a failed attempt - is used as position 0 of the schedule without
+	// looking at the relay floor at all; the floor may have risen since that rate was chosen.
+	t.Run("caller-supplied starting rate", func(t *testing.T) {
+		estimator := &chainfee.MockEstimator{}
+		estimator.On("RelayFeePerKW").Return(relayFloor).Maybe()
+
+		f, err := NewLinearFeeFunction(
+			chainfee.SatPerKWeight(10000), 6, estimator, fn.Some(chainfee.SatPerKWeight(100)),
+		)
+		if err == nil {
+			require.GreaterOrEqual(t, f.FeeRate(), relayFloor, "starting fee rate below the relay floor")
+		}
+	})
 }
